@@ -2,10 +2,14 @@
 other samples.
 
 proof  : coq/Knn_Spec.v (is_knn, decision procedure is_knn_b, "k smallest sorted distances" wording),
-         Knn_Brute_*.v, Knn_VpTree_*.v, Knn_CoverSel_*.v, CoverTree_*.v, Properties_C02.v.
-tie    : exact metrics served as MATRICES through the distance / kernel callback (integers, so double
-         arithmetic is exact and ties are real ties).  On every run, for every case and several k:
-           * is_knn_b (extracted) on the rows find_neighbors() returns, for all three methods;
+         Knn_Brute_*.v, Knn_VpTree_*.v, Knn_CoverSel_*.v, Knn_Scale.v, CoverTree_*.v (model of the batch query, proofs of
+         its pruning tests, of the validity of the running bound - CoverTree_Proof_Audit.v - and of the construction -
+         CoverTree_Build_Proof.v -, end-to-end theorem covertree_pipeline_exact), Properties_C02.v.
+tie    : exact metrics served as MATRICES through the distance / kernel callback (integers, or integers * 2^s, so double
+         arithmetic is exact and ties are real ties), over the identity index range or over a window of a longer vector of
+         offset / permuted ids.  On every run, for every case and several k (k = N-2 and k = N-1 always among them):
+           * is_knn_b (extracted) on the rows find_neighbors() returns, for all three methods, check_connectivity false
+             and (one k per case) true;
            * brute force: the observed std::nth_element result is checked against its contract
              (nth_ok_b) and pushed through the model row;
            * VP-tree: the REAL tree is dumped (#define private public), the extracted vp_inv_b /
@@ -13,8 +17,9 @@ tie    : exact metrics served as MATRICES through the distance / kernel callback
              equal the real search's, the model wrapper must agree with find_neighbors;
            * cover tree: the REAL candidate lists of k_nearest_neighbor(k+1) are checked for
              completeness (cand_complete_b = hypothesis of ct_select_exact) and pushed through the
-             model selection; the real tree is dumped, its invariants checked (ct_inv_b) and the
-             model batch query is run on it (candidate sets must coincide).
+             model selection; the real tree is dumped, its invariants checked (ct_inv_b, ct_holds_b, leaf100_b), the
+             model of the construction must build the same tree, and the model batch query is run on the real tree
+             (candidate sets must coincide; its audit flag must be true: theorem ct_query_audit_true).
 search : when a proof or the correspondence breaks, a larger budget of tie-heavy cases is run
          against is_knn_b directly.
 """
@@ -1090,20 +1095,22 @@ def float_observation(ctx, exe, rng, stats, runs):
 
 
 def boundary_large(ctx, exe, c, stats):
-    """k = N-2 and k = N-1 on the large cases (N > 400), where the extracted is_knn_b (quadratic in k per row) is too
-    slow: a row is judged here by comparing its sorted distances with the k smallest distances to the others, plus
+    """k = N-2 and k = N-1 on the large thorough cases (N = 400, 1000, 2000), where the extracted is_knn_b (quadratic in
+    k per row) is too slow: a row is judged here by comparing its sorted distances with the k smallest distances to the others, plus
     distinctness / range / query-not-in-row.  Supplementary to the extracted judge, used only for these two k."""
     n = c["N"]
     T, _ = model_table(c)
     rows_judged = 0
     for k in (n - 2, n - 1):
-        r = run_impl(ctx, exe, [c], [["F %s %d" % (m, k) for m in METHODS]], timeout=600)[0]
+        # the cover tree at k+1 = N costs O(N^3) (update() shifts the whole k-vector): above N = 1000 only k = N-2
+        methods = [m for m in METHODS if not (m == "C" and n > 1000 and k == n - 1)]
+        r = run_impl(ctx, exe, [c], [["F %s %d" % (m, k) for m in methods]], timeout=600)[0]
         if r["crashed"] or not r["ended"]:
             ctx.violation({"gen": c["gen"], "kind": c["kind"], "N": n, "k": k, "M": c.get("M"), "ids": c.get("ids")},
                           "find_neighbors aborts at k=%d on N=%d: %s" % (k, n, str(r["sanitizer"])[:300]))
             continue
         p = parse_case_output(r["lines"])
-        for m in METHODS:
+        for m in methods:
             rows = dict(p["F"].get((m, k)) or [])
             for q in range(n):
                 row = rows.get(q)
@@ -1204,7 +1211,7 @@ def run(ctx):
             P = [[rng.randint(0, r // 2), rng.randint(0, r // 2)] for _ in range(n)]
         c = make_case(rng, "scatter", "D", n, None, l1(P), "scatter", full_ks=True, structural=False)
         cases.append(c)
-    for _ in range(1500 if quick else 10000):
+    for _ in range(1500 if quick else 6000):
         cases.append(gen_copy_radius(rng))
     if not quick:
         for n in (400, 1000, 2000):
@@ -1212,12 +1219,12 @@ def run(ctx):
             pts = [[i, j] for i in range(side) for j in range(n // side)]
             rng.shuffle(pts)
             c = make_case(rng, "grid", "D", len(pts), None, l1(pts), "grid2d-large")
-            c["ks"] = [1, 5, 20] + ([n - 2, n - 1] if n <= 400 else [])
+            c["ks"] = [1, 5, 20]
             c["structural"] = n <= 400
             cases.append(c)
             pts = [[rng.randint(0, n // 3)] for _ in range(n)]
             c = make_case(rng, "line", "D", n, None, l1(pts), "line-large")
-            c["ks"] = [3, 12] + ([n - 2, n - 1] if n <= 400 else [])
+            c["ks"] = [3, 12]
             c["structural"] = n <= 400
             cases.append(c)
     cases = [c for c in cases if c["ks"] and c["N"] >= 2]
@@ -1243,6 +1250,7 @@ def run(ctx):
     scatter = [c for c in cases if c["gen"] in FAST]
     small = [c for c in cases if c["N"] <= 150 and c["gen"] not in FAST]
     large = [c for c in cases if c["N"] > 150]
+
     for i in range(0, len(small), 150):
         n += evaluate(ctx, exe, mexe, small[i:i + 150], stats)
         if stats.get("aborted_cases", 0) >= 3 and ctx.has_violation():
@@ -1252,8 +1260,7 @@ def run(ctx):
         if stats.get("aborted_cases", 0) >= 3 and ctx.has_violation():
             break
         n += evaluate(ctx, exe, mexe, [c], stats)
-        if c["N"] > 400:
-            n += boundary_large(ctx, exe, c, stats)
+        n += boundary_large(ctx, exe, c, stats)
     if not (stats.get("aborted_cases", 0) >= 3 and ctx.has_violation()):
         # (a library that hangs or crashes again and again already has its verdict: do not spend 30 timeouts here)
         float_observation(ctx, exe, rng, stats, 30 if quick else 400)
